@@ -16,7 +16,7 @@ RULE = ("1..300 records; names of 1..5 printable non-blank ASCII characters; res
         "coordinates = integer multiples of the last written decimal spanning the field's full range (negative, "
         "maximal) plus sub-resolution offsets up to 0.4999 units; velocities on/off; titles set / unset / with "
         "trailing newline / with multi-byte characters; box unset / 3-vector / diagonal / triclinic; position format unset or (d+5,d), d=1..6; "
-        "atom count declared or filled on close; writeline / writelines / context manager; optionally another file of "
+        "atom count declared or filled on close; writeline / writelines (one call, or chunks of 0, 1 or more records) / context manager; optionally another file of "
         "another format / length written (and read) through the library just before, under the same or another path. Non-trivial = >=2 records "
         "and (non-default format or velocities or a number >= 99998 or a triclinic box). Distinct = sha1 of the case.")
 ASSUMPTIONS = [
@@ -102,7 +102,8 @@ def case_strategy(draw, tier="quick"):
         box = b.tolist()
     return {"records": recs, "format": fmt, "vel": vel, "title": title, "box_kind": bk, "box": box,
             "declare": draw(st.booleans()),
-            "api": draw(st.sampled_from(["writeline", "writelines", "with", "tuple", "strings"])),
+            "api": draw(st.sampled_from(["writeline", "writelines", "with", "tuple", "strings", "chunks", "chunks"])),
+            "chunks": draw(st.lists(st.sampled_from([0, 1, 1, 2, 3, 7]), min_size=1, max_size=6)),
             "read_api": draw(st.sampled_from(["path", "path", "fileobj", "open_coordinate_file", "iterate"])),
             "prior": draw(st.one_of(st.none(), st.fixed_dictionaries({
                 "format": st.sampled_from([None, 1, 2, 4, 6]), "vel": st.booleans(), "n": st.integers(1, 40),
@@ -129,6 +130,20 @@ def write_with_library(case, path):
                 f.writeline(GroFile.parse_atomlist(list(r), fd))
         elif case["api"] == "writelines":
             f.writelines([list(r) for r in recs])
+        elif case["api"] == "chunks":
+            # records handed over molecule by molecule: writelines with lists of 0, 1 or more records, single
+            # records through writeline in between, the rest in one last call
+            k = 0
+            for i, size in enumerate(case.get("chunks", [1])):
+                if k >= len(recs):
+                    break
+                if size == 1 and i % 2:
+                    f.writeline(list(recs[k]))
+                else:
+                    f.writelines([list(r) for r in recs[k:k + size]])
+                k += size
+            if k < len(recs):
+                f.writelines([list(r) for r in recs[k:]])
         elif case["api"] == "tuple":
             for r in recs:
                 f.writeline(tuple(r))
